@@ -137,8 +137,12 @@ def cstTag {σ : Type} : CSt σ → String
   | .susp _ => "susp"
   | .done _ => "done"
 
+def showYV : YV → String
+  | .plain v => s!"{v}"
+  | .req m d => s!"req{m}:{d}"
+
 def showOut : CallOut → String
-  | .pending y => s!"pend {y}"
+  | .pending y => s!"pend {showYV y}"
   | .returned v => s!"ret {v}"
   | .raised e => s!"exc {showExc e}"
 
